@@ -89,18 +89,30 @@ fn explore(api: &Api, setting_ix: usize, seed: u64, cx: &mut Cx) {
         cands.push(("extended".into(), m));
     }
     let states: [(&str, &Vec<u8>); 4] = [("matched", &matched.slogin), ("other-session", &again.slogin), ("wrong-password-client", &slw), ("no-record", &slf)];
+    // every pending state is also explored as it comes back from a save/reload through serde (bincode, JSON)
+    let mut state_blobs: Vec<(&str, &str, Blob)> = vec![];
     for (sname, sst) in states {
+        state_blobs.push((sname, "native", Blob::n(sst)));
+        for (cn, codec) in [("bincode", crate::adapter::Codec::Bincode), ("json", crate::adapter::Codec::Json)] {
+            match api.recode(crate::refmodel::Kind::SLogin, &Blob::n(sst), codec) {
+                Ok(b) => state_blobs.push((sname, cn, b)),
+                Err(e) => cx.violate_case("machinery/state-reload", format!("cannot save a pending server state through {}: {:?}", cn, e), json!({})),
+            }
+        }
+    }
+    for (sname, codec_name, sblob) in &state_blobs {
+        let sname = *sname;
         for (class, c) in &cands {
             let expect_ok = sname == "matched" && c == &genuine;
             // (the second honest session accepts its own finalization, which is in the menu as other-session-same-user)
             let expect_ok = expect_ok || (sname == "other-session" && c == &again.ke3);
-            cx.begin_case(json!({"server_state": sname, "candidate_class": class, "candidate": hex::encode(c), "setting": setting_ix}));
-            if !cx.state(&(setting_ix, sname, c)) {
+            cx.begin_case(json!({"server_state": sname, "state_reloaded_through": codec_name, "candidate_class": class, "candidate": hex::encode(c), "setting": setting_ix}));
+            if !cx.state(&(setting_ix, sname, codec_name, c)) {
                 continue;
             }
             cx.edges += 1;
             cx.path();
-            match (api.slogin_finish(&Blob::n(sst), &Blob::n(c)), expect_ok) {
+            match (api.slogin_finish(sblob, &Blob::n(c)), expect_ok) {
                 (Ok(k), true) => {
                     let want = if sname == "matched" { &matched.sk_client } else { &again.sk_client };
                     if &k != want {
@@ -110,11 +122,15 @@ fn explore(api: &Api, setting_ix: usize, seed: u64, cx: &mut Cx) {
                 }
                 (Err(e), true) => {
                     cx.outcome("REJECTED-GENUINE");
-                    cx.violate("reject-genuine", format!("server rejects the genuine finalization: {:?}", e));
+                    if *codec_name == "native" {
+                        cx.violate("honest-step/reject-genuine", format!("server rejects the genuine finalization: {:?}", e));
+                    } else {
+                        cx.violate(&format!("honest-step/reject-genuine-after-{}-reload", codec_name), format!("server rejects the genuine finalization after its state was reloaded through {}: {:?} (C13's business)", codec_name, e));
+                    }
                 }
                 (Ok(_), false) => {
                     cx.outcome("ACCEPTED-FORGED");
-                    cx.violate(&format!("ACCEPTED/{}/{}", sname, class), format!("server login finish returns a session key for a non-matching finalization (state {}, candidate {})", sname, class));
+                    cx.violate(&format!("ACCEPTED/{}/{}/{}", sname, class, codec_name), format!("server login finish returns a session key for a non-matching finalization (state {} [{}], candidate {})", sname, codec_name, class));
                 }
                 (Err(E::InvalidLogin), false) => cx.outcome("rejected-InvalidLoginError"),
                 (Err(E::Panic(m)), false) => cx.violate("panic", m),
@@ -147,7 +163,7 @@ pub fn run(tier: Tier, seed: u64) -> i32 {
         tier,
         seed,
         rule: "4 pending server states x the complete candidate menu (genuine; all Nh*8 bit flips; all Nh*255 byte substitutions; foreign finalizations; constants; confusable values; tape strings; truncations/extensions) x 2 settings x 20 suites; each (state, candidate) is one transition of ServerLogin::finish".into(),
-        bounds: json!({"suites": 20, "settings": 2, "server_states": 4, "bit_flips": "all", "byte_substitutions": "all offsets x 255 values", "quick_equals_thorough": true}),
+        bounds: json!({"suites": 20, "settings": 2, "server_states": 4, "state_codecs": ["native", "bincode", "json"], "bit_flips": "all", "byte_substitutions": "all offsets x 255 values", "quick_equals_thorough": true}),
         assumptions: vec![],
         exhaustive: true,
         crosscheck: json!(null),
